@@ -3,6 +3,7 @@
 //! Nothing in here changes the behaviour of the crate, the module only makes
 //! internal quantities of the encodation planner and the data decoder
 //! observable for external property checks.
+use alloc::vec::Vec;
 use core::cell::Cell;
 
 /// Statistics about the most recent call of the encodation planner on this thread.
@@ -55,4 +56,21 @@ pub(crate) fn update(f: impl FnOnce(&mut PlanStats)) {
         f(&mut v);
         s.set(v);
     })
+}
+
+/// Output of the data decoder before charset conversion.
+#[derive(Debug, Clone, PartialEq, Eq)]
+pub struct RawParts {
+    pub output: Vec<u8>,
+    /// `(offset into output, ECI number)`
+    pub eci_spans: Vec<(usize, u32)>,
+    pub fnc1: bool,
+}
+
+/// Run the data decoder and return the bytes together with the ECI designators read.
+pub fn decode_parts(
+    data: &[u8],
+    raw: bool,
+) -> Result<RawParts, crate::data::DataDecodingError> {
+    crate::decodation::verif_decode_parts(data, raw)
 }
